@@ -12,7 +12,7 @@ from hypothesis import strategies as st
 from hypothesis.stateful import RuleBasedStateMachine, rule, precondition, run_state_machine_as_test
 
 from vlib import model, workspace
-from vlib.harness import hyp_settings, Violation, quiet
+from vlib.harness import hyp_settings, Violation, quiet, collecting
 
 PROPERTY = "C14"
 RULE = ("a pool of 17 deliberately dissimilar (country|world, scenario) items (both nutrition profiles, populations 3e5..1.4e9, horizons 48 "
@@ -255,10 +255,8 @@ def shard(ctx):
     thorough = ctx.tier == "thorough"
     M = make_machine(ctx)
     seed = (ctx.seed * 1000 + ctx.shard) * 13 + 1
-    try:
+    with collecting(ctx):
         run_state_machine_as_test(hypothesis.seed(seed)(M), settings=hyp_settings(38 if thorough else 3, shrink=False, stateful_steps=6))
-    except Violation as v:
-        ctx.record_violation(ctx._last_violation or v)
     # every batch is run on every check (not left to the draw)
     if ctx.shard < len(BATCHES) * (4 if thorough else 1):
         try:
